@@ -982,7 +982,7 @@ func main() {
 		replay = true
 	} else {
 		g := &gen{r: r.Rng}
-		for i := 0; i < r.N(10, 120); i++ {
+		for i := 0; i < r.N(10, 80); i++ {
 			ops = append(ops, g.scenario(r)...)
 		}
 	}
